@@ -390,6 +390,7 @@ func checkC16(c *Ctx, r *Report) {
 		o.NonTrivial = true
 	}
 
+	ruleEarlyExitInventory(c, r, "C16.c", 3, "core/annotations")
 	// every element filter in these packages is a reviewed one
 	ruleSkipInventory(c, r, "C16.c", loadSkipTable(c.VerifDir), 5, "core/annotations", "gast")
 }
